@@ -7,6 +7,7 @@ pub mod c03;
 pub mod c04;
 pub mod c05;
 pub mod c06;
+pub mod c07;
 pub mod c08;
 pub mod c13;
 pub mod c14;
@@ -16,7 +17,7 @@ pub mod c18;
 pub mod c19;
 pub mod c20;
 
-pub const ALL: &[&str] = &["C01", "C02", "C03", "C04", "C05", "C06", "C08", "C13", "C14", "C15", "C17", "C18", "C19", "C20"];
+pub const ALL: &[&str] = &["C01", "C02", "C03", "C04", "C05", "C06", "C07", "C08", "C13", "C14", "C15", "C17", "C18", "C19", "C20"];
 
 pub fn get(id: &str, tier: Tier) -> Option<Prop> {
   Some(match id {
@@ -26,6 +27,7 @@ pub fn get(id: &str, tier: Tier) -> Option<Prop> {
     "C04" => c04::prop(tier),
     "C05" => c05::prop(tier),
     "C06" => c06::prop(tier),
+    "C07" => c07::prop(tier),
     "C08" => c08::prop(tier),
     "C13" => c13::prop(tier),
     "C14" => c14::prop(tier),
